@@ -606,8 +606,14 @@ def finish(ctx, level="model_checking", rule="", confirm=None):
     sys.exit(1 if reported else 0)
 
 
+def evidence_dir():
+    # evidence describes /repo itself; a run pointed at another tree (VERIF_REPO: seeded changes, snapshots) keeps its
+    # evidence with its scratch files
+    return os.path.join(ROOT, "evidence") if REPO == "/repo" else os.path.join(ROOT, "run", "evidence-other-tree")
+
+
 def write_evidence(ctx, level, rule, nviol):
-    os.makedirs(os.path.join(ROOT, "evidence"), exist_ok=True)
+    os.makedirs(evidence_dir(), exist_ok=True)
     cov = {
         "states": ctx.states,
         "transitions": ctx.transitions,
@@ -626,7 +632,7 @@ def write_evidence(ctx, level, rule, nviol):
     cov.update(ctx.extra)
     ev = {"property_id": ctx.prop, "tier": ctx.tier, "seed": ctx.seed, "level": level, "coverage": cov,
           "assumptions": ctx.assumptions, "wall_s": round(time.time() - ctx.t0, 1), "violations": nviol}
-    with open(os.path.join(ROOT, "evidence", ctx.prop + ".json"), "w") as f:
+    with open(os.path.join(evidence_dir(), ctx.prop + ".json"), "w") as f:
         json.dump(ev, f, indent=1)
 
 
